@@ -334,6 +334,15 @@ def protocol(run, it, prop):
                             shared = c.attrs["_call_counts"] is s.attrs["_call_counts"]
                             ctx.run.ob(P + "copy/shares-call-counts", core.DISCHARGED if shared else core.FAILED, "pyvc-enum")
                         if "read-only" in op:
+                            # memoisation works on read-only snapshots too: the second request of a value on the snapshot costs nothing and is transparent
+                            u.calls.clear()
+                            v1 = ex.call(u.f, [u.sysA, c], {})
+                            u.calls.clear()
+                            v2 = ex.call(u.f, [u.sysA, c], {})
+                            okro = not u.calls and v1 == v2 == u.scratch(("f", "A"), c)
+                            ctx.run.ob(P + "read-only-copy/values-are-memoised", core.DISCHARGED if okro else core.FAILED, "pyvc-enum",
+                                       detail="" if okro else f"second request on a read-only copy re-evaluated the user function ({len(u.calls)} calls) or changed value; {desc}",
+                                       text="a value requested twice on a read-only copy is evaluated at most once and equals the from-scratch value")
                             post = u.inv(fam)
                             ctx.run.ob(P + "invariant-preserved[copy]", core.DISCHARGED if post is None else core.FAILED, "pyvc-enum",
                                        detail="" if post is None else f"after `{op}`: {post}; {desc}")
